@@ -17,6 +17,7 @@ QRule == LET c == KCase(Ev.case)  a == c.anchors[Ev.anchor] IN
 Rule == CASE Ev.op = "q" -> QRule
           [] Ev.op = "mono" -> Ev.res = "Ok" /\ (IF Ev.dir = 1 THEN NonDecr(Ev.ords) ELSE NonIncr(Ev.ords))
           [] Ev.op = "one" -> Ev.res = "Ok" /\ Ev.multi <= Ev.allowed
+          [] Ev.op = "sup" -> SupOK(Ev)
           [] OTHER -> FALSE
 
 TInit == l = 1
